@@ -16,7 +16,7 @@ import random
 from pyvc.contract import contract, spec
 from pyvc.specfns import NATIVE_HELPERS
 
-ite = NATIVE_HELPERS["ite"]   # run-time meaning of the helpers used inside the spec functions below
+ite, typename = NATIVE_HELPERS["ite"], NATIVE_HELPERS["typename"]   # run-time meaning of the helpers used inside the spec functions below
 
 DIPC = "dip/dip.py::DIP"
 TIER = os.environ.get("PYVC_TIER", "quick")
@@ -290,4 +290,302 @@ def _(c):
     c.ensures(f"in_order_of_first_effect(names_of(result)[{SKIP}:], rows, cs, vs) and len(names_of(result)) >= {SKIP}", "nodes-in-order-of-first-effect")
     c.ensures(f"[val_of(result, 'base.' + k) for k, v in {BASE!r}] == [v for k, v in {BASE!r}] and [val_of(result, 'c%d' % i) for i in range({NC})] == cs and [val_of(result, 'v%d' % i) for i in range({NV})] == vs",
               "nodes-outside-the-blocks-unaffected")
+    c.no_raise()
+
+
+# =====================================================================================================================
+# General form: a prelude (parsed first; the values of some of its nodes are then replaced by symbols), a text parsed
+# on top of that environment, and what the property says about the outcome, written as small expression trees over the
+# symbols:  ('s', name) symbol | number/str/bool constant | (op, a, b) with op in + - * / lt le gt ge eq ne and or |
+# ('not', a) | ('in', a, [constants]) | ('near', a, b)
+class Prelude:
+    def __init__(self, lines, symbols):
+        """lines: [(text line, node name or None)]; symbols: {node name: (kind, symbol name)}"""
+        self.text = "\n".join(l for l, _ in lines)
+        self.names = [n for _, n in lines if n]
+        self.symbols = symbols
+
+
+def prestate2(b, pre, text, name="t"):
+    d0 = b.new(DIPC, name="prelude")
+    b.call(b.getattr(d0, "add_string"), pre.text)
+    env = b.call(b.getattr(d0, "parse"))
+    nodes = b.getattr(env, "nodes")
+    S = {}
+    for i, nm in enumerate(pre.names):
+        if nm in pre.symbols:
+            kind, sym = pre.symbols[nm]
+            S[sym] = getattr(b, kind)(sym)
+            b.setattr(b.getattr(b.call(b.getattr(nodes, "__getitem__"), i), "value"), "value", S[sym])
+    d = b.new(DIPC, env, name=name)
+    b.call(b.getattr(d, "add_string"), text)
+    return d, env, S
+
+
+@spec
+def ev(t, S):
+    if not isinstance(t, tuple):
+        return t
+    op = t[0]
+    if op == 's':
+        return S[t[1]]
+    if op == 'not':
+        return not ev(t[1], S)
+    if op == 'abs':
+        return absd(ev(t[1], S))
+    if op == 'in':
+        return any([ev(t[1], S) == x for x in t[2]])
+    a = ev(t[1], S)
+    b = ev(t[2], S)
+    if op == '+':
+        return a + b
+    if op == '-':
+        return a - b
+    if op == '*':
+        return a * b
+    if op == '/':
+        return a / b
+    if op == 'lt':
+        return a < b
+    if op == 'le':
+        return a <= b
+    if op == 'gt':
+        return a > b
+    if op == 'ge':
+        return a >= b
+    if op == 'eq':
+        return a == b
+    if op == 'ne':
+        return a != b
+    if op == 'and':
+        return a and b
+    if op == 'or':
+        return a or b
+    return None
+
+
+@spec
+def agrees(v, t, S):
+    """the parsed value v against the expected tree t; ('bounds', lo, hi): true whenever lo holds, false whenever hi fails
+    (what a tolerant comparison must satisfy)"""
+    if isinstance(t, tuple) and t[0] == 'bounds':
+        return ite(ev(t[1], S), v == True, True) and ite(ev(t[2], S), True, v == False)
+    w = ev(t, S)
+    if isinstance(w, bool) or typename(w) == 'bool' or isinstance(w, str):
+        return v == w
+    return v is not None and close(v, w)
+
+
+@spec
+def unit_of(env, name):
+    n = node_of(env, name)
+    return None if n is None or n.value is None else n.value.unit
+
+
+@spec
+def absd(x):
+    return x if x >= 0 else -x
+
+
+@spec
+def close(a, b):
+    return absd(a - b) <= 1e-9 * (absd(a) + absd(b)) + 1e-300
+
+
+def S_(n):
+    return ("s", n)
+
+
+# ---- C16: constraints decide whether an environment is returned -----------------------------------------------------------
+PRE16 = Prelude([
+    ("w0 float = 1", "w0"), ("w1 float = 1", "w1"), ("v0 int = 1", "v0"), ("f0 bool = true", "f0"),
+    ("t_max float = 10 s", "t_max"),
+    ("timestep float = 1 s", "timestep"), ('  !condition ("{?} < {?t_max} && {?} > 0")', None),
+    ("n int = 2", "n"), ("  !options [1,2,3]", None),
+    ("size float = 5 cm", "size"), ('  !condition ("1 cm < {?} && {?} < 1 m")', None),
+    ("mode int = 1", "mode"), ("  = 1", None), ("  = 2", None),
+    ("flag bool = true", "flag"), ('  !condition ("{?} == true")', None),
+], {"w0": ("real", "w0"), "w1": ("real", "w1"), "v0": ("int", "v0"), "f0": ("bool", "f0")})
+N16 = len(PRE16.names)
+w0, w1, v0, f0 = S_("w0"), S_("w1"), S_("v0"), S_("f0")
+# (name, text, accepted-iff, [(node, expected value)] on acceptance)
+C16_TEXTS = [
+    ("inherited-condition-refers-to-the-modified-node", "t_max = {?w0} s", ("lt", 1, w0), [("t_max", w0), ("timestep", 1)]),
+    ("condition-on-the-modified-node", "timestep = {?w0} s", ("and", ("lt", w0, 10), ("gt", w0, 0)), [("timestep", w0)]),
+    ("both-modified", "timestep = {?w0} s\nt_max = {?w1} s", ("and", ("lt", w0, w1), ("gt", w0, 0)), [("timestep", w0), ("t_max", w1)]),
+    ("options-keyword", "n = {?v0}", ("in", v0, [1, 2, 3]), [("n", v0)]),
+    ("options-lines", "mode = {?v0}", ("in", v0, [1, 2]), [("mode", v0)]),
+    ("condition-with-units-other-unit-given", "size = {?w0} mm", ("and", ("lt", 10, w0), ("lt", w0, 1000)), [("size", ("/", w0, 10))]),
+    ("condition-on-bool", "flag = {?f0}", f0, [("flag", f0)]),
+    ("new-node-with-condition", 'k int = {?v0}\n  !condition ("{?} >= 2 && {?} != 5")', ("and", ("ge", v0, 2), ("ne", v0, 5)), [("k", v0)]),
+    ("new-node-with-options", "k int = {?v0}\n  !options [4,8]\nj int = 3", ("in", v0, [4, 8]), [("k", v0), ("j", 3)]),
+    ("new-node-with-condition-on-another-new-node", 'lo float = {?w0} cm\nhi float = {?w1} cm\n  !condition ("{?} > {?lo}")', ("gt", w1, w0), [("lo", w0), ("hi", w1)]),
+    ("declared-without-value", "q float cm", False, []),
+    ("declared-then-set", "q float cm\nq = {?w0}", True, [("q", w0)]),
+    ("declared-in-a-group-without-value", "g\n  q int", False, []),
+    ("constraint-violated-inside-unselected-clause-does-not-matter", '@case ("{?f0}")\n  n = {?v0}\n@end', ("or", ("not", f0), ("in", v0, [1, 2, 3])), []),
+    ("unconstrained-modification", "w1 = {?w0}", True, [("w1", w0)]),
+]
+
+
+@contract(DIPC + ".parse", ["C16"], name="DIP.parse[constraints]")
+def _(c):
+    c.bound = f"{len(C16_TEXTS)} texts parsed on top of an environment with constrained nodes; the values that are tested against the constraints are symbolic"
+    c.chunk = 1
+    for name, text, accept, vals in C16_TEXTS:
+        def pre(b, text=text, accept=accept, vals=vals):
+            d, env, S = prestate2(b, PRE16, text)
+            return dict(args=[d], env=dict(S=S, accept=accept, vals=vals, text=text))
+        c.scenario(name, pre)
+    c.raises("not ev(accept, S)", label="an-environment-is-returned-iff-every-constraint-holds")
+    c.ensures("all([agrees(val_of(result, nm), t, S) for nm, t in vals])", "final-values")
+
+
+# ---- C18: numerical, logical and template expressions inside a parsed text ------------------------------------------------
+PRE18 = Prelude([
+    ("a float = 1 m", "a"), ("b float = 1 cm", "b"), ("k float = 4", "k"), ("i int = 3", "i"), ("j int = 3 mm", "j"),
+    ("f bool = true", "f"), ("g bool = true", "g"), ("h bool = true", "h"), ("name str = Tina", "name"),
+], {"a": ("real", "wa"), "b": ("real", "wb"), "k": ("real", "wk"), "i": ("int", "vi"), "j": ("int", "vj"), "f": ("bool", "bf"), "g": ("bool", "bg"), "h": ("bool", "bh")})
+wa, wb, wk, vi, vj, bf, bg, bh = [S_(n) for n in ("wa", "wb", "wk", "vi", "vj", "bf", "bg", "bh")]
+# (name, text, refused-iff, [(node, expected value tree)], requires)
+C18_TEXTS = [
+    ("sum-in-mixed-units", 'x float = ("{?a} + {?b}") cm', False, [("x", ("+", ("*", wa, 100), wb))], None),
+    ("product-before-difference", 'x float = ("{?a} - {?b} * {?k}") m', False, [("x", ("-", wa, ("/", ("*", wb, wk), 100)))], None),
+    ("parentheses-first", 'x float = ("({?a} + {?b}) * {?k}") cm', False, [("x", ("*", ("+", ("*", wa, 100), wb), wk))], None),
+    ("quotient-of-lengths-is-a-number", 'x float = ("{?a} / {?b}")', False, [("x", ("/", ("*", wa, 100), wb))], ("ne", wb, 0)),
+    ("product-of-lengths", 'x float = ("{?a} * {?b}") m2', False, [("x", ("/", ("*", wa, wb), 100))], None),
+    ("literals-with-units", 'x float = ("2 m + 50 cm - {?a}") cm', False, [("x", ("-", 250, ("*", wa, 100)))], None),
+    ("left-to-right-division", 'x float = ("{?a} / 2 / {?k}") m', False, [("x", ("/", ("/", wa, 2), wk))], ("ne", wk, 0)),
+    ("left-to-right-subtraction", 'x float = ("{?a} - {?b} - {?b}") cm', False, [("x", ("-", ("-", ("*", wa, 100), wb), wb))], None),
+    ("division-then-product", 'x float = ("{?a} / {?k} * 2") m', False, [("x", ("*", ("/", wa, wk), 2))], ("ne", wk, 0)),
+    ("signs-of-numbers", 'x float = ("-2 m * -3 + {?a} * -1") cm', False, [("x", ("-", 600, ("*", wa, 100)))], None),
+    ("zero-result", 'x float = ("{?a} - {?a}") cm\ny int = ("{?i} * 0")', False, [("x", 0), ("y", 0)], None),
+    ("untyped-modification-by-expression", 'x float = 1 cm\nx = ("{?a} + {?b}")\nz bool = true\nz = ("{?f} && {?g}")', False, [("x", ("+", ("*", wa, 100), wb)), ("z", ("and", bf, bg))], None),
+    ("different-dimension-refused", 'x float = ("{?a} + {?k}") m', True, [], None),
+    ("different-dimension-refused-2", 'x float = ("{?a} * {?b} - {?a}") m2', True, [], None),
+    ("integer-nodes", 'x float = ("{?i} * {?j} + 1 cm") mm', False, [("x", ("+", ("*", vi, vj), 10))], None),
+    ("comparison-twice-on-the-same-node", 'y bool = ("{?a} > {?b} && {?a} < 50")', False, [("y", ("and", ("gt", ("*", wa, 100), wb), ("lt", wa, 50)))], None),
+    ("tolerant-greater-or-equal", 'y bool = ("{?a} >= {?b}")', False, [("y", ("bounds", ("ge", ("*", wa, 100), wb), ("ge", ("*", wa, 100), ("-", wb, ("+", ("*", 1e-5, ("abs", wb)), 1e-7)))))], None),
+    ("tolerant-equality", 'y bool = ("{?a} == {?b}")', False, [("y", ("bounds", ("eq", ("*", wa, 100), wb), ("le", ("abs", ("-", ("*", wa, 100), wb)), ("+", ("*", 1e-5, ("abs", wb)), 1e-7))))], None),
+    ("comparison-then-bare-number", 'y bool = ("{?b} < {?a} && {?b} > 20")', False, [("y", ("and", ("lt", wb, ("*", wa, 100)), ("gt", wb, 20)))], None),
+    ("or-of-ands", 'y bool = ("{?f} || {?g} && {?h}")', False, [("y", ("or", bf, ("and", bg, bh)))], None),
+    ("negation-binds-tighter-than-and", 'y bool = ("~{?f} && {?g} || {?h}")', False, [("y", ("or", ("and", ("not", bf), bg), bh))], None),
+    ("parenthesised-or", 'y bool = ("({?f} || {?g}) && ~{?h}")', False, [("y", ("and", ("or", bf, bg), ("not", bh)))], None),
+    ("comparison-binds-tighter-than-negation", 'y bool = ("~{?i} == 3 || {?f}")', False, [("y", ("or", ("not", ("eq", vi, 3)), bf))], None),
+    ("integer-comparisons", 'y bool = ("{?i} <= 4 && {?i} != 2 && {?j} > 1 mm")', False, [("y", ("and", ("and", ("le", vi, 4), ("ne", vi, 2)), ("gt", vj, 1)))], None),
+    ("definedness", 'y bool = ("!{?a} && {?f}")\nz bool = ("!{?nope} || {?g}")', False, [("y", bf), ("z", bg)], None),
+    ("string-comparison", 'y bool = ("{?name} == Tina && {?f}")\nz bool = ("{?name} == Tom || {?g}")', False, [("y", bf), ("z", bg)], None),
+    ("case-condition-with-units", '@case ("{?a} > {?b}")\n  x int = 1\n@else\n  x int = 2\n@end', False, [("x", ("+", 2, ("*", -1, ("gt", ("*", wa, 100), wb))))], None),
+]
+
+
+@contract(DIPC + ".parse", ["C18"], name="DIP.parse[expressions]")
+def _(c):
+    c.bound = f"{len(C18_TEXTS)} texts with numerical / logical expressions over referenced nodes; the values of the referenced nodes are symbolic"
+    c.chunk = 1
+    for name, text, refused, vals, req in C18_TEXTS:
+        def pre(b, text=text, refused=refused, vals=vals, req=req):
+            d, env, S = prestate2(b, PRE18, text)
+            return dict(args=[d], env=dict(S=S, refused=refused, vals=vals, req=True if req is None else req, text=text))
+        c.scenario(name, pre)
+    c.requires("ev(req, S)")
+    c.raises("refused", label="refused-iff-operands-of-different-dimension-are-added")
+    c.ensures("all([agrees(val_of(result, nm), t, S) for nm, t in vals])", "value-of-the-expression")
+
+
+# ---- C17: value injections and imports ---------------------------------------------------------------------------------------
+PRE17 = Prelude([
+    ("a float = 1 m", "a"), ("b float = 1 cm", "b"), ("i int = 3", "i"), ("f bool = true", "f"), ("name str = Tina", "name"),
+    ("grp", None), ("  p float = 2 s", "grp.p"), ("  q", None), ("    r int = 5", "grp.q.r"), ("  flag bool = false", "grp.flag"),
+    ("sizes float[4] = [10,20,30,40] cm", "sizes"), ("names str[3] = [\"a\",\"b\",\"c\"]", "names"),
+    ("opt int = 2", "opt"), ("  !options [1,2,3]", None),
+], {"a": ("real", "wa"), "b": ("real", "wb"), "i": ("int", "vi"), "f": ("bool", "bf"), "grp.p": ("real", "wp"), "grp.q.r": ("int", "vr"), "grp.flag": ("bool", "bflag")})
+wp, vr, bflag = S_("wp"), S_("vr"), S_("bflag")
+# (name, text, refused, [(node, value tree)], [(node, unit)], names added in order or None)
+C17_TEXTS = [
+    ("adopts-the-unit-when-it-states-none", "x float = {?a}", False, [("x", wa)], [("x", "m")], ["x"]),
+    ("keeps-the-unit-it-states", "x float = {?a} cm", False, [("x", wa)], [("x", "cm")], ["x"]),
+    ("modification-converted-into-the-definition-unit", "x float = 2 cm\nx = {?a}", False, [("x", ("*", wa, 100))], [("x", "cm")], ["x"]),
+    ("modification-stating-a-unit", "x float = 2 cm\nx = {?a} mm", False, [("x", ("/", wa, 10))], [("x", "cm")], ["x"]),
+    ("current-value-after-earlier-modifications", "a = {?b}\nx float = {?a}\na = 7 m\ny float = {?a}", False, [("a", 7), ("x", ("/", wb, 100)), ("y", 7)], [("x", "m"), ("y", "m")], ["x", "y"]),
+    ("integer-boolean-and-text", "x int = {?i}\ny bool = {?f}\nz str = {?name}", False, [("x", vi), ("y", bf), ("z", "Tina")], [], ["x", "y", "z"]),
+    ("injection-from-a-group", "x float = {?grp.p}\ny int = {?grp.q.r}", False, [("x", wp), ("y", vr)], [("x", "s")], ["x", "y"]),
+    ("import-of-all-descendants", "box\n  {?grp.*}", False, [("box.p", wp), ("box.q.r", vr), ("box.flag", bflag)], [("box.p", "s")], ["box.p", "box.q.r", "box.flag"]),
+    ("import-of-a-single-node", "box\n  {?grp.p}\n  {?a}", False, [("box.p", wp), ("box.a", wa)], [("box.p", "s"), ("box.a", "m")], ["box.p", "box.a"]),
+    ("import-of-a-subgroup", "box\n  {?grp.q.*}", False, [("box.r", vr)], [], ["box.r"]),
+    ("import-at-root-level", "{?grp.q.*}", False, [("r", vr)], [], ["r"]),
+    ("named-import", "cp {?grp.*}\ncq {?a}", False, [("cp.p", wp), ("cp.q.r", vr), ("cp.flag", bflag), ("cq.a", wa)], [("cp.p", "s"), ("cq.a", "m")], ["cp.p", "cp.q.r", "cp.flag", "cq.a"]),
+    ("import-keeps-constraints", "box\n  {?opt}\nbox.opt = {?i}", ("not", ("in", vi, [1, 2, 3])), [("box.opt", vi)], [], ["box.opt"]),
+    ("injection-selecting-no-node", "x float = {?nope}", True, [], [], None),
+    ("injection-selecting-several-nodes", "x float = {?grp.*}", True, [], [], None),
+    ("sliced-array-injection-then-import", "part float[:] = {?sizes}[1:3]\nbox\n  {?part}", False, [], [("part", "cm"), ("box.part", "cm")], ["part", "box.part"]),
+    ("sliced-array-injection-then-modification", "part float[:] = {?sizes}[1:]\npart = [7,8,9]\ncopy float[:] = {?part}", False, [], [("part", "cm"), ("copy", "cm")], ["part", "copy"]),
+    ("single-element", "pick float = {?sizes}[1] mm\nother float = {?pick}", False, [("pick", 20), ("other", 20)], [("pick", "mm"), ("other", "mm")], ["pick", "other"]),
+    ("text-slice", "last str[:] = {?names}[1:]\ng\n  {?last}", False, [], [], ["last", "g.last"]),
+]
+ARRAYS17 = {"sliced-array-injection-then-import": [("part", [20.0, 30.0]), ("box.part", [20.0, 30.0])],
+            "sliced-array-injection-then-modification": [("part", [7.0, 8.0, 9.0]), ("copy", [7.0, 8.0, 9.0])],
+            "text-slice": [("last", ["b", "c"]), ("g.last", ["b", "c"])]}
+N17 = len(PRE17.names)
+
+
+@spec
+def array_of(env, name):
+    n = node_of(env, name)
+    return None if n is None or n.value is None else [x for x in n.value.value]
+
+
+@spec
+def observed(env, k):
+    """name, keyword, unit and scalar value of the first k nodes (array values as lists)"""
+    return [(n.name, n.keyword, None if n.value is None else (n.value.unit if n.keyword in ('float', 'int') else None),
+             None if n.value is None else ([x for x in n.value.value] if n.dimension else n.value.value)) for n in [env.nodes[i] for i in range(k)]]
+
+
+@contract(DIPC + ".parse", ["C17"], name="DIP.parse[injections-and-imports]")
+def _(c):
+    c.bound = f"{len(C17_TEXTS)} texts parsed on top of an environment with a group, arrays and constrained nodes; scalar values of the referenced nodes symbolic, arrays concrete"
+    c.chunk = 1
+    for name, text, refused, vals, units, added in C17_TEXTS:
+        def pre(b, name=name, text=text, refused=refused, vals=vals, units=units, added=added):
+            d, env, S = prestate2(b, PRE17, text)
+            return dict(args=[d], env=dict(S=S, refused=refused, vals=vals, units=units, added=added, arrays=ARRAYS17.get(name, []), base=env, text=text))
+        c.scenario(name, pre)
+    c.raises("ev(refused, S)", label="rejected-iff-the-request-selects-none-or-several-or-a-constraint-fails")
+    c.ensures("all([agrees(val_of(result, nm), t, S) for nm, t in vals])", "host-gets-the-current-value-of-the-referenced-node")
+    c.ensures("all([unit_of(result, nm) == u for nm, u in units])", "host-keeps-its-own-unit-or-adopts-the-referenced-one")
+    c.ensures("all([array_of(result, nm) == xs for nm, xs in arrays])", "slice-applied-once")
+    c.ensures(f"added is None or names_of(result)[{N17}:] == added", "exactly-the-selected-nodes-re-created-below-the-importing-node")
+    c.ensures(f"observed(base, {N17}) == old(observed(base, {N17}))", "previously-parsed-environment-unchanged")
+    c.on_raise(f"observed(base, {N17}) == old(observed(base, {N17}))", "previously-parsed-environment-unchanged-when-refused")
+
+
+# ---- C19: the Fortran module declares string arrays with a length no item exceeds -------------------------------------------------
+EXF = "dip/config/export_fortran.py::ExportConfigFortran"
+C19_STRING_ARRAYS = [
+    ('names str[3] = ["x","alpha","with-dash"]', [("NAMES", 9)]),
+    ('m str[2,2] = [["a","bcd"],["zz","y"]]\nk int[2] = [1,2]', [("M", 3)]),
+    ('grp\n  tags str[2] = ["zebra","configuration"]\n  one str[1] = ["q"]', [("GRP_TAGS", 13), ("GRP_ONE", 1)]),
+]
+
+
+@spec
+def line_with(text, name):
+    for l in text.split('\n'):
+        if (':: ' + name + ' =') in l:
+            return l
+    return ''
+
+
+@contract(EXF + ".parse", ["C19"], name="ExportConfigFortran.parse[string-arrays]")
+def _(c):
+    c.bound = "three texts with 1-D / 2-D string arrays whose longest item is not the lexicographically largest one"
+    for text, want in C19_STRING_ARRAYS:
+        def pre(b, text=text, want=want):
+            d0 = b.new(DIPC, name="t")
+            b.call(b.getattr(d0, "add_string"), text)
+            env = b.call(b.getattr(d0, "parse"))
+            return dict(args=[b.new(EXF, env)], env=dict(want=want))
+        c.scenario(text.splitlines()[0], pre)
+    c.ensures("all([line_with(result, nm).count('character(len=%d)' % n) == 2 for nm, n in want])", "declared-length-is-the-longest-item")
     c.no_raise()
